@@ -665,10 +665,19 @@ class Molecule(nx.Graph):
 
     def add_node(self, *args, **kwargs):
         super().add_node(*args, **kwargs)
-        if self.max_node:
-            self.max_node += 1
-        else:
-            self.max_node = 0
+        # `max_node` caches the highest node key for `merge_molecule`. It
+        # stays valid only as long as keys are appended consecutively;
+        # anything else invalidates it so it gets recomputed when needed.
+        node = args[0] if args else kwargs.get('node_for_adding')
+        try:
+            consecutive = self.max_node is not None and node == self.max_node + 1
+        except TypeError:
+            consecutive = False
+        self.max_node = node if consecutive else None
+
+    def add_nodes_from(self, *args, **kwargs):
+        super().add_nodes_from(*args, **kwargs)
+        self.max_node = None
 
     def merge_molecule(self, molecule):
         """
@@ -702,7 +711,7 @@ class Molecule(nx.Graph):
                 .format(self.nrexcl, molecule.nrexcl)
             )
         if self.nodes():
-            if not self.max_node:
+            if self.max_node is None:
                 # hopefully it is a small graph when this is called.
                 self.max_node = max(self)
 
@@ -959,6 +968,7 @@ class Molecule(nx.Graph):
         get deleted.
         """
         super().remove_node(node)
+        self.max_node = None
         self._remove_interactions_with_node(node)
 
     def remove_nodes_from(self, nodes):
@@ -969,6 +979,7 @@ class Molecule(nx.Graph):
         the graph and hence does not get deleted.
         """
         super().remove_nodes_from(nodes)
+        self.max_node = None
         for node in nodes:
             self._remove_interactions_with_node(node)
 
